@@ -173,7 +173,12 @@ def iv_pair(acc, mods, kind, fa, fb, z=None):
         # the same subtraction with a native operand on either side
         na = dt_.datetime(*fa, tzinfo=a.tzinfo, fold=a.fold)
         nb = dt_.datetime(*fb, tzinfo=b.tzinfo, fold=b.fold)
-        for lbl, fn in (("pendulum-minus-native", lambda: b - na), ("native-minus-pendulum", lambda: nb - a)):
+        for lbl, fn in (("pendulum-minus-native", lambda: b - na), ("native-minus-pendulum", lambda: nb - a),
+                        ("Interval(native,native)", lambda: pendulum.Interval(na, nb)),
+                        ("interval(native,pendulum)", lambda: pendulum.interval(na, b)),
+                        ("diff(native)", lambda: a.diff(nb, False))):
+            if kind == "naive" and lbl in ("interval(native,pendulum)", "diff(native)"):
+                continue    # instance() reads a naive native value as UTC: mixing it with a naive DateTime is a TypeError by design
             acc.c["evaluations"] += 1
             acc.c["transitions"] += 1
             try:
